@@ -392,6 +392,9 @@ class GVN:
             return self.single(self.atom("real", f_key(v)))
         if name == "imag":
             return self.single(self.atom("imag", f_key(self._n(base))))
+        if name in ("shape", "size", "ndim", "dtype") and base.op not in ("sym", "global", "name"):
+            # metadata of a computed array: a function of the (numbered) array, not of the way it is written
+            return self.single(self.atom("meta", name, f_key(self._n(base))))
         return self.leaf(t)
 
     def _transpose(self, a: int) -> int:
@@ -842,7 +845,7 @@ class GVN:
 MODELLED = {"einsum", "matmul", "T", "perm", "get", "inv", "invf", "det", "prod", "div", "divf", "conj", "real", "seq",
             "stackseq", "stack", "elem", "carry", "scan", "sum", "trace", "diag", "diagonal", "reshape", "outer",
             "vstack", "hstack", "block", "concatenate", "leaf", "sym", "const", "op", "phi", "v", "sl", "tup", "pow",
-            "exp", "sqrt", "abs", "where", "setitem", "struct"}
+            "exp", "sqrt", "abs", "where", "setitem", "struct", "meta"}
 
 
 def compare_forms(g: "GVN", a: Form, b: Form) -> str:
